@@ -23,6 +23,18 @@ use patchrun::*;
 use radicle::cob::patch::State;
 use verif_common::*;
 
+/// Totals over all cases (reported in the evidence notes): entries applied / rejected by the real evaluation.
+static OPS_APPLIED: std::sync::atomic::AtomicU64 = std::sync::atomic::AtomicU64::new(0);
+static OPS_REJECTED: std::sync::atomic::AtomicU64 = std::sync::atomic::AtomicU64::new(0);
+static OPS_TOTAL: std::sync::atomic::AtomicU64 = std::sync::atomic::AtomicU64::new(0);
+
+fn count_ops(total: usize, applied: usize, rejected: usize) {
+    use std::sync::atomic::Ordering::Relaxed;
+    OPS_TOTAL.fetch_add(total as u64, Relaxed);
+    OPS_APPLIED.fetch_add(applied as u64, Relaxed);
+    OPS_REJECTED.fetch_add(rejected as u64, Relaxed);
+}
+
 fn elaborate(w: &mut World, input: &str) -> (String, Outcome) {
     let Some(mut case) = parse(input) else {
         return (input.to_string(), Outcome::new("bad-case").trivial().tag("bad-case"));
@@ -32,6 +44,7 @@ fn elaborate(w: &mut World, input: &str) -> (String, Outcome) {
         Err(e) => return (input.to_string(), Outcome::new(format!("harness-error:{e}")).trivial().tag("harness-error")),
     };
     let text = render(&case);
+    count_ops(case.ops.len() - 1, run.steps.iter().filter(|s| s.ok).count(), run.steps.iter().filter(|s| !s.ok).count());
     let mut o = Outcome::new(run.output.clone());
     o.tags = run.tags.clone();
     oracle(w, &case, &run, &mut o);
@@ -389,6 +402,12 @@ fn main() {
                 world = World::new();
             }
         }
+    }
+    {
+        use std::sync::atomic::Ordering::Relaxed;
+        ctx.note("entries_total_non_root", OPS_TOTAL.load(Relaxed));
+        ctx.note("entries_applied", OPS_APPLIED.load(Relaxed));
+        ctx.note("entries_rejected", OPS_REJECTED.load(Relaxed));
     }
     ctx.finish(
         "whole patch histories on a real repository: 1-2 identity documents (1-4 delegates, thresholds 1..n), \
